@@ -6,6 +6,7 @@ import (
 	"io"
 	"math/big"
 	"math/rand"
+	"os"
 	"sort"
 	"strconv"
 	"strings"
@@ -182,6 +183,41 @@ type c25stats struct {
 	nullEntries, dupKeyEntries                                                               int
 	script                                                                                   *[]string // statements of the running program (witness)
 	lastKind                                                                                 string    // kind of the statement executed last (part of violation keys: when the disagreement first shows)
+	lostIn                                                                                   string    // kind of the statement during which the server dropped the connection (recovered panic), "" if none
+}
+
+// readKey makes the key of a failed read specific to its observable cause, so that listing one cause cannot mask others.
+func (st *c25stats) readKey(base string, err error) string {
+	e := err.Error()
+	switch {
+	case strings.Contains(e, "dangling ref"):
+		if st.lostIn != "" {
+			return base + "/dangling-ref/after-server-panic-in-" + st.lostIn
+		}
+		return base + "/dangling-ref/unclassified"
+	case strings.Contains(e, "byte slice is length") || strings.Contains(e, "malformed tuple") || strings.Contains(e, "slice bounds out of range"):
+		cause := "unclassified"
+		if st.script != nil {
+			for _, q := range *st.script {
+				if strings.Contains(q, " add column ") && strings.HasSuffix(q, " first") { // succeeded (no error suffix)
+					cause = "over-column-added-first"
+				}
+			}
+		}
+		return base + "/row-bytes-do-not-fit-schema/after-" + st.lastKind + "/" + cause
+	}
+	return base
+}
+
+// ws adds the statements of the running program to a witness.
+func (st *c25stats) ws(extra map[string]any) map[string]any {
+	if extra == nil {
+		extra = map[string]any{}
+	}
+	if st != nil && st.script != nil {
+		extra["script"] = append([]string(nil), (*st.script)...)
+	}
+	return extra
 }
 
 func trimPrefix(v string, n int, chars bool) string {
@@ -239,7 +275,7 @@ func checkTable(c *rig.Ctx, x *sqlrig.Session, root doltdb.RootValue, qual, asOf
 		text, err = showCreate(x, qt)
 	}
 	if err != nil {
-		c.Violation("c25/read/show-create", "cannot read table definition: "+err.Error(), witness(nil))
+		c.Violation(st.readKey("c25/read/show-create", err), "cannot read table definition: "+err.Error(), witness(nil))
 		return
 	}
 	def := parseCreate(text)
@@ -249,7 +285,7 @@ func checkTable(c *rig.Ctx, x *sqlrig.Session, root doltdb.RootValue, qual, asOf
 	}
 	rows, err := x.Query(sel)
 	if err != nil {
-		c.Violation("c25/read/select", "cannot scan table: "+err.Error(), witness(map[string]any{"create": text}))
+		c.Violation(st.readKey("c25/read/select", err), "cannot scan table: "+err.Error(), witness(map[string]any{"create": text}))
 		return
 	}
 	colPos := map[string]int{}
@@ -494,6 +530,9 @@ func checkTable(c *rig.Ctx, x *sqlrig.Session, root doltdb.RootValue, qual, asOf
 			if len(b) > 6 {
 				b = b[:6]
 			}
+			if prefixOfPK(def, &ix) {
+				kind += "/index-has-prefix-of-primary-key-column"
+			}
 			if strings.HasPrefix(label, "commit:") {
 				kind += "/in-commit"
 			} else {
@@ -507,6 +546,21 @@ func checkTable(c *rig.Ctx, x *sqlrig.Session, root doltdb.RootValue, qual, asOf
 			sqlLookups(c, x, def, &ix, qt, asOf, rows, colPos, label, st)
 		}
 	}
+}
+
+// prefixOfPK reports whether the index has a prefix length on a column of the primary key (observable input class).
+func prefixOfPK(def *tableDef, ix *idxDef) bool {
+	for i, cn := range ix.Cols {
+		if ix.Prefix[i] == 0 {
+			continue
+		}
+		for _, p := range def.PK {
+			if strings.EqualFold(p, cn) {
+				return true
+			}
+		}
+	}
+	return false
 }
 
 func lowerAll(s []string) []string {
@@ -556,7 +610,36 @@ func sqlLookups(c *rig.Ctx, x *sqlrig.Session, def *tableDef, ix *idxDef, qt, as
 	run := func(where string, keep func(v string) bool) {
 		got, err := x.Query("select * from " + from + " where " + where)
 		if err != nil {
-			c.Violation("c25/sql-lookup/error", "forced-index lookup failed: "+err.Error(), map[string]any{"root": label, "query": "select * from " + from + " where " + where})
+			key := "c25/sql-lookup/error"
+			if strings.Contains(err.Error(), "panic") {
+				key = "c25/sql-lookup/panic/unclassified"
+				if prefixOfPK(def, ix) {
+					key = "c25/sql-lookup/panic/index-has-prefix-of-primary-key-column"
+				}
+			}
+			if strings.Contains(err.Error(), "max1Row") {
+				// does the table itself hold two rows with the same non-NULL values in this (unique) index's columns?
+				seen, dup := map[string]bool{}, false
+				for _, r := range rows.Data {
+					var parts []string
+					null := false
+					for _, cn := range ix.Cols {
+						v := r[colPos[cn]]
+						null = null || v == sqlrig.Null
+						parts = append(parts, v)
+					}
+					k := strings.Join(parts, "\x1f")
+					if !null && seen[k] {
+						dup = true
+					}
+					seen[k] = true
+				}
+				key = "c25/sql-lookup/max1row-on-unique-index/no-duplicate-values-in-table"
+				if dup {
+					key = "c25/sql-lookup/max1row-on-unique-index/table-holds-duplicate-unique-values"
+				}
+			}
+			c.Violation(key, "forced-index lookup failed: "+err.Error(), st.ws(map[string]any{"root": label, "query": "select * from " + from + " where " + where, "create": def.Text}))
 			return
 		}
 		var want []string
@@ -569,11 +652,11 @@ func sqlLookups(c *rig.Ctx, x *sqlrig.Session, def *tableDef, ix *idxDef, qt, as
 		if g := got.Sorted(); !eqStrings(g, want) {
 			a, b := multisetDiff(g, want, 5)
 			c.Violation("c25/sql-lookup/rows", fmt.Sprintf("lookup through index %s returns %d rows, the same filter over the scanned rows gives %d", ix.Name, len(g), len(want)),
-				map[string]any{"root": label, "query": "select * from " + from + " where " + where, "only_via_index": visAll(a), "only_via_scan": visAll(b), "create": def.Text})
+				st.ws(map[string]any{"root": label, "query": "select * from " + from + " where " + where, "only_via_index": visAll(a), "only_via_scan": visAll(b), "create": def.Text}))
 		}
 		cnt, err := x.Scalar("select count(*) from " + from + " where " + where)
 		if err == nil && cnt != strconv.Itoa(len(want)) {
-			c.Violation("c25/sql-lookup/count", fmt.Sprintf("COUNT(*) through index %s = %s, expected %d", ix.Name, cnt, len(want)), map[string]any{"root": label, "where": where, "create": def.Text})
+			c.Violation("c25/sql-lookup/count", fmt.Sprintf("COUNT(*) through index %s = %s, expected %d", ix.Name, cnt, len(want)), st.ws(map[string]any{"root": label, "where": where, "create": def.Text}))
 		}
 	}
 	for _, v := range vals {
@@ -639,7 +722,7 @@ func checkRoot(c *rig.Ctx, x *sqlrig.Session, root doltdb.RootValue, qual, fromD
 		tabs, err = baseTables(x, fromDB)
 	}
 	if err != nil {
-		c.Violation("c25/read/tables", "cannot list tables of "+label+": "+err.Error(), nil)
+		c.Violation(st.readKey("c25/read/tables", err), "cannot list tables of "+label+": "+err.Error(), st.ws(nil))
 		return
 	}
 	st.roots++
@@ -732,6 +815,7 @@ func (p *c25prog) run(kind, q string) bool {
 			// the server recovered a panic and dropped the connection: not what C25 is about, but worth a note;
 			// the statement must have had no effect, which the next check verifies
 			p.kinds["connection-lost"]++
+			p.st.lostIn = kind
 			p.c.Note(fmt.Sprintf("connection lost (server-side panic?) in %s by %q; script so far: %s", p.db, q, strings.Join(p.log, " ;; ")))
 			p.reconnect()
 		}
@@ -1018,7 +1102,7 @@ func (p *c25prog) checkWorking(deep bool) {
 	}()
 	roots, err := sqlrig.BranchRoots(p.ddb, p.branch)
 	if err != nil {
-		p.c.Violation("c25/read/working-root", "cannot resolve working set of "+p.branch+": "+err.Error(), nil)
+		p.c.Violation("c25/read/working-root", "cannot resolve working set of "+p.branch+": "+err.Error(), p.st.ws(nil))
 		return
 	}
 	checkRoot(p.c, p.x, roots.Working, "", "", "", "working:"+p.branch, deep, p.st)
@@ -1083,7 +1167,23 @@ func (p *c25prog) settle(op string, abort string) bool {
 		p.kinds["conflicted-"+op+"-resolved"]++
 	}
 	if nv > 0 {
-		p.run("clear-violations", "delete from dolt_constraint_violations_t")
+		// a violation may only be declared resolved after the offending rows are gone (clearing the records alone would
+		// leave e.g. two rows with the same value of a UNIQUE index: a constraint matter, not an index-mirror one)
+		d := p.def()
+		if len(d.PK) == 0 {
+			p.run(op+"-abort", abort)
+			return false
+		}
+		var ks []string
+		for _, k := range d.PK {
+			ks = append(ks, qid(k))
+		}
+		cols := strings.Join(ks, ", ")
+		if !p.run("repair-violations", "delete from t where ("+cols+") in (select "+cols+" from dolt_constraint_violations_t)") ||
+			!p.run("clear-violations", "delete from dolt_constraint_violations_t") {
+			p.run(op+"-abort", abort)
+			return false
+		}
 	}
 	p.checkWorking(false)
 	return true
@@ -1150,6 +1250,7 @@ func c25program(c *rig.Ctx, box *srvBox, i int, st *c25stats, kinds map[string]i
 	x := box.srv.MustOpen("")
 	p := &c25prog{c: c, r: r, x: x, srv: box.srv, db: db, branch: "main", st: st, kinds: kinds}
 	st.script = &p.log
+	st.lostIn = ""
 	p.viol0 = c.Violations()
 	defer func() {
 		if e := recover(); e != nil {
@@ -1271,7 +1372,7 @@ func c25program(c *rig.Ctx, box *srvBox, i int, st *c25stats, kinds map[string]i
 	for _, b := range []string{"main", "br"} {
 		lg, err := p.x.Query(fmt.Sprintf("select commit_hash from `%s/%s`.dolt_log", db, b))
 		if err != nil {
-			c.Violation("c25/read/log", err.Error(), nil)
+			c.Violation("c25/read/log", err.Error(), st.ws(nil))
 			continue
 		}
 		for j, row := range lg.Data {
@@ -1282,7 +1383,7 @@ func c25program(c *rig.Ctx, box *srvBox, i int, st *c25stats, kinds map[string]i
 			seen[h] = true
 			root, err := sqlrig.CommitRoot(ddb, h)
 			if err != nil {
-				c.Violation("c25/read/commit-root", err.Error(), map[string]any{"commit": h})
+				c.Violation("c25/read/commit-root", err.Error(), st.ws(map[string]any{"commit": h}))
 				continue
 			}
 			rev := fmt.Sprintf("`%s/%s`", db, h)
@@ -1322,7 +1423,19 @@ func c25(c *rig.Ctx) {
 	st := &c25stats{}
 	kinds := map[string]int{}
 	n := c.Pick(36, 900)
+	only := map[int]bool{}
+	for _, f := range strings.Split(os.Getenv("VERIF_C25_CASES"), ",") { // debugging aid: run only the listed program indexes
+		if k, err := strconv.Atoi(strings.TrimSpace(f)); err == nil {
+			only[k] = true
+			if k >= n {
+				n = k + 1
+			}
+		}
+	}
 	for i := 0; i < n; i++ {
+		if len(only) > 0 && !only[i] {
+			continue
+		}
 		c25program(c, box, i, st, kinds)
 		if c.UnlistedViolations() > 25 {
 			break
